@@ -35,6 +35,8 @@ type dClient struct {
 	before bool   // crash before the write lands
 	after  string // start only after this client has ended ("" = from the beginning)
 	batch  int    // listing page size used by a commit (0: default)
+	// faultGet: the first read (Get/Has/GetAttr) of a key containing this text fails with a transient error
+	faultGet string
 }
 
 type dScenario struct {
@@ -67,6 +69,16 @@ func (d *dRun) stores(name string, gated bool, c dClient) (context2.Stores, *sto
 	}
 	if c.crash > 0 {
 		ctl.CrashAt, ctl.Before = c.crash, c.before
+	}
+	if c.faultGet != "" {
+		fired := false
+		ctl.FaultFn = func(storeName, op, key string, nth int) bool {
+			if !fired && (op == "get" || op == "has" || op == "attr") && strings.Contains(key, c.faultGet) {
+				fired = true
+				return true
+			}
+			return false
+		}
 	}
 	free := &store.Ctl{Name: name + "-blob"}
 	e := d.e
@@ -426,6 +438,22 @@ func diamondScenarios(seed int64, thorough bool) []dScenario {
 			uc.crash, uc.before = m, true
 			out = append(out, dScenario{label: "rerun-after-terminal", setup: []dClient{uc, u3, term}, then: []dClient{u2, dClient{name: "u5", role: "split", split: "s9"}}})
 		}
+	}
+	// a transient read fault on the state of a terminated diamond / completed split must not reopen it
+	for _, term := range []dClient{k1, x1} {
+		kf := k2
+		kf.faultGet = "diamond-done"
+		out = append(out, dScenario{label: "terminated-read-fault", setup: []dClient{u1, u3, term}, then: []dClient{kf, k3}})
+		uf := dClient{name: "u5", role: "split", split: "s9", faultGet: "diamond-done"}
+		out = append(out, dScenario{label: "terminated-read-fault", setup: []dClient{u1, u3, term}, then: []dClient{uf, k2}})
+		ur := u2
+		ur.faultGet = "diamond-done"
+		out = append(out, dScenario{label: "terminated-read-fault", setup: []dClient{u1, u3, term}, then: []dClient{ur}})
+	}
+	{
+		ur := u2
+		ur.faultGet = "split-done"
+		out = append(out, dScenario{label: "done-split-read-fault", setup: []dClient{u1}, then: []dClient{ur, k1}})
 	}
 	// crashes: the committer (or a split run) dies at each of its writes, then the operation is retried
 	for m := 1; m <= 4; m++ {
